@@ -2,6 +2,7 @@ package c12
 
 import (
 	"bytes"
+	"context"
 	"fmt"
 	"io"
 	"strings"
@@ -209,8 +210,8 @@ func (c *ksCase) checkHandle(rt *rapid.T, what string, h *keyset.Handle, public 
 
 var (
 	formats      = []string{"binary", "json", "mem"}
-	secretRoutes = []string{"cleartext", "encrypted", "encrypted-ad"}
-	publicRoutes = []string{"cleartext", "encrypted", "encrypted-ad", "nosecrets", "nosecrets", "newhandle"}
+	secretRoutes = []string{"cleartext", "encrypted", "encrypted-ad", "encrypted-ctx"}
+	publicRoutes = []string{"cleartext", "encrypted", "encrypted-ad", "encrypted-ctx", "nosecrets", "nosecrets", "newhandle"}
 )
 
 type route struct {
@@ -240,7 +241,7 @@ func drawRoute(rt *rapid.T, label string, modes []string) route {
 			rt.Fatalf("aead.New for KEK %s: %v", k.Desc, err)
 		}
 		r.kekDesc = k.Desc
-		if r.mode == "encrypted-ad" {
+		if r.mode == "encrypted-ad" || r.mode == "encrypted-ctx" {
 			r.ad = gen.BytesOrNil(rt, label+"_ad", 64)
 		}
 	}
@@ -303,6 +304,17 @@ func through(rt *rapid.T, c *ksCase, what string, h *keyset.Handle, r route) *ke
 		}
 		if out, err = keyset.ReadWithAssociatedData(tr.reader(), r.kek, r.ad); err != nil {
 			fail("keyset.ReadWithAssociatedData", err)
+		}
+	case "encrypted-ctx":
+		if err = h.WriteWithContext(context.Background(), tr.writer(), tk.CtxAEAD(r.kek), r.ad); err != nil {
+			fail("Handle.WriteWithContext", err)
+		}
+		if out, err = keyset.ReadWithContext(context.Background(), tr.reader(), tk.CtxAEAD(r.kek), r.ad); err != nil {
+			fail("keyset.ReadWithContext", err)
+		}
+		// one format, two APIs: what WriteWithContext wrote, ReadWithAssociatedData reads
+		if _, err = keyset.ReadWithAssociatedData(tr.reader(), r.kek, r.ad); err != nil {
+			fail("keyset.ReadWithAssociatedData of a keyset written by WriteWithContext", err)
 		}
 	case "nosecrets":
 		if err = h.WriteWithNoSecrets(tr.writer()); err != nil {
